@@ -5,7 +5,10 @@ Open Scope N_scope.
 (* every load operation carries what the shared loader returned and what a fresh loader
    returned on the same files *)
 Record lstep := mkStep { st_op : lop; st_shared : option obs; st_fresh : option obs }.
-Record case11 := mkCase11 { k_fs : fsys; k_lim : limits; k_steps : list lstep }.
+(* k_server: server-level histories -- after every re-analysis of the root document, per file of the
+   fresh loader's tree: (file, version in the server's resolved tree or 888888 if absent, version in
+   the fresh loader's tree) *)
+Record case11 := mkCase11 { k_fs : fsys; k_lim : limits; k_steps : list lstep; k_server : list (N * N * N) }.
 
 Definition obs_eqb (a b : obs) : bool :=
   Bool.eqb (ob_nil a) (ob_nil b) && listN_eqb (ob_order a) (ob_order b) &&
@@ -41,7 +44,10 @@ Definition oracle_ok11 (c : case11) : bool :=
                      | Some a, Some b => obs_eqb a b
                      | None, None => true
                      | _, _ => false
-                     end) (k_steps c).
+                     end) (k_steps c) &&
+  (* a file the server's tree holds is the version a fresh loader reads now (a file it lacks is the
+     truncation of the recorded findings, not staleness) *)
+  forallb (fun t => let '(_, sv, fv) := t in (sv =? 888888) || (sv =? fv)) (k_server c).
 
 (* known classes, read off the model's run: 1 = a cache hit on a journal that has include
    directives (its nested files vanish); 2 = a cache hit on a file examined more than once
